@@ -14,6 +14,10 @@ def dispatch(prop):
         from . import check_bucket
         return (lambda tier: check_bucket.run(prop, tier)), \
                (lambda path: check_bucket.replay(prop, path))
+    if prop == 'C08':
+        from . import check_demand
+        return (lambda tier: check_demand.run(prop, tier)), \
+               (lambda path: check_demand.replay(prop, path))
     if prop == 'C16':
         from . import check_laws
         return (lambda tier: check_laws.run(prop, tier)), \
